@@ -22,8 +22,30 @@ def ofPyM {α} (f : α → String) : PyM α → String
 
 def ints (l : List String) : Option (List Int) := l.mapM String.toInt?
 
+def fromHexBytes (s : String) : Option String :=
+  let rec go : List Char → List Char → Option (List Char)
+    | [], acc => some acc.reverse
+    | [_], _ => none
+    | a :: b :: r, acc =>
+      match hexVal a, hexVal b with
+      | some x, some y => go r (Char.ofNat (16 * x + y) :: acc)
+      | _, _ => none
+  (go s.toList []).map String.ofList
+
+def toHexBytes (s : String) : String :=
+  String.ofList (s.toList.flatMap fun c => [hexDigitChar (c.toNat / 16), hexDigitChar (c.toNat % 16)])
+
 def runOp (toks : List String) : String :=
   match toks with
+  | ["hex", n] =>
+    match n.toInt? with
+    | some n => ofPyM (fun s => "ok " ++ toHexBytes s) (Src.hex.u64_to_hex n)
+    | none => "bad-op"
+  | ["unhex", s] =>
+    match fromHexBytes s with
+    | some s => ofPyM (fun v => s!"ok {v}") (Src.hex.hex_to_u64 s)
+    | none => "bad-op"
+  | ["unhex"] => ofPyM (fun v => s!"ok {v}") (Src.hex.hex_to_u64 "")
   | ["res", n] =>
     match n.toInt? with
     | some n => ofPyM (fun r => s!"ok {r}") (Src.serialization.get_resolution n)
